@@ -1046,6 +1046,73 @@ pub mod verif_hooks {
             cluster_name: None,
         }
     }
+
+    struct RejectAll;
+    impl crate::policies::host_filter::HostFilter for RejectAll {
+        fn accept(&self, _peer: &crate::cluster::metadata::Peer) -> bool {
+            false
+        }
+    }
+
+    /// The REAL `ClusterState::new(metadata, node_config, host_filter)` (hence the real
+    /// `calculate_new_topology`, `resolve_metadata_keyspaces`, `perform_tablets_maintenance`,
+    /// `calculate_new_locator`) on a `Metadata` value made of the given peers and keyspaces,
+    /// with a host filter that rejects every peer, so that every `Node` is created by
+    /// `Node::new_disabled` and nothing connects.
+    pub async fn cluster_state_via_new(
+        peers: Vec<VerifPeer>,
+        keyspaces: HashMap<String, Keyspace>,
+    ) -> ClusterState {
+        let metadata = crate::cluster::metadata::Metadata {
+            peers: peers
+                .into_iter()
+                .map(|p| crate::cluster::metadata::Peer {
+                    host_id: p.host_id,
+                    address: p.address,
+                    tokens: p.tokens,
+                    datacenter: p.datacenter,
+                    rack: p.rack,
+                })
+                .collect(),
+            keyspaces: keyspaces.into_iter().map(|(k, v)| (k, Ok(v))).collect(),
+            cluster_name: None,
+            client_routes: None,
+        };
+        let (connectivity_events_sender, _) = tokio::sync::mpsc::unbounded_channel();
+        let node_config = super::NodeConfig {
+            // never used: the host filter rejects every peer, no pool is created
+            pool_config: crate::network::PoolConfig {
+                connection_config: crate::network::ConnectionConfig {
+                    local_ip_address: None,
+                    shard_aware_local_port_range:
+                        crate::routing::ShardAwarePortRange::EPHEMERAL_PORT_RANGE,
+                    compression: None,
+                    tcp_socket_options: Default::default(),
+                    timestamp_generator: None,
+                    event_sender: None,
+                    tls_provider: None,
+                    connect_timeout: std::time::Duration::from_secs(5),
+                    default_consistency: Default::default(),
+                    authenticator: None,
+                    address_translator: None,
+                    write_coalescing_delay: None,
+                    keepalive_interval: None,
+                    keepalive_timeout: None,
+                    tablet_sender: None,
+                    identity: Default::default(),
+                },
+                pool_size: Default::default(),
+                can_use_shard_aware_port: true,
+                reconnect_policy: Arc::new(
+                    crate::policies::reconnect::ExponentialReconnectPolicy::new(),
+                ),
+            },
+            used_keyspace: None,
+            connectivity_events_sender,
+            metrics: crate::observability::metrics::Metrics::new(),
+        };
+        ClusterState::new(metadata, &node_config, Some(&RejectAll)).await
+    }
 }
 
 /// Verification hook (only with `--cfg scylla_verif`): pass-through to the private
